@@ -133,6 +133,10 @@ inductive Op where
   | write   -- modify the local copy and `bundleData[bp.Id] = metadata` (nothing if `!ok`)
 deriving Repr, DecidableEq
 
+def Op.name : Op → String
+  | .rlock => "rlock" | .runlock => "runlock" | .lock => "lock" | .unlock => "unlock"
+  | .read => "read" | .write => "write"
+
 /-- The order in which `ReportFailure` takes the locks and touches the map. -/
 def rfProgram (atomicRF : Bool) : List Op :=
   if atomicRF then [.lock, .read, .write, .unlock]
